@@ -1116,7 +1116,8 @@ LIN_KINDS = [("add", 8), ("sub", 8), ("add_assign", 6), ("sub_assign", 6), ("neg
              ("rescale", 6), ("rescale_assign", 4), ("align", 3),
              ("add_pt_znx", 4), ("sub_pt_znx", 3), ("add_pt_znx_assign", 3), ("sub_pt_znx_assign", 3)]
 MUL_KINDS = [("mul", 8), ("mul_assign", 4), ("square", 4), ("square_assign", 2), ("mul_pt_znx", 5), ("mul_pt_znx_assign", 3),
-             ("add_many", 5), ("dot_ct", 8), ("dot_pt_znx", 4)]
+             ("add_many", 5), ("dot_ct", 8), ("dot_pt_znx", 4), ("rot", 4), ("rot_assign", 2), ("conj", 3), ("conj_assign", 2)]
+NEEDS_ATK = ("rot", "rot_assign", "conj", "conj_assign")
 NEEDS_KEY = ("mul", "mul_assign", "square", "square_assign", "dot_ct")
 
 
@@ -1151,7 +1152,7 @@ def data_programs(rng, count, max_steps, with_mul=False):
                     b = cap - d
                 pool.append((size, d, b))
         kinds = LIN_KINDS + (MUL_KINDS * 2 if with_mul else [])
-        sim = Sim(q, [], 53, pool)
+        sim = Sim(q, [1, 3] if with_mul else [], 53, pool)
         ops = []
         for _ in range(rng.range(4, max_steps)):
             for _try in range(8):
@@ -1170,10 +1171,14 @@ def data_programs(rng, count, max_steps, with_mul=False):
                 bits = rng.choice([0, 1, 3, rng.range(0, 2 * q)])
                 if name in ("add", "sub", "mul"):
                     c = [name, d, a, b]
-                elif name in ("mul_assign", "square"):
+                elif name in ("mul_assign", "square", "conj"):
                     c = [name, d, a]
-                elif name == "square_assign":
+                elif name in ("square_assign", "conj_assign"):
                     c = [name, d]
+                elif name == "rot":
+                    c = [name, d, a, rng.choice([1, 3])]
+                elif name == "rot_assign":
+                    c = [name, d, rng.choice([1, 3])]
                 elif name in ("mul_pt_znx", "mul_pt_znx_assign", "dot_pt_znx"):
                     src = cd if name == "mul_pt_znx_assign" else ca
                     pd_ = rng.range(2, min(30, max(2, src.b)))
@@ -1212,7 +1217,7 @@ def data_programs(rng, count, max_steps, with_mul=False):
                     c = [name, d, rng.range(0, ca.b + (1 if rng.chance(1, 8) else 0)), a]
                 else:
                     c = [name, d, rng.range(0, cd.b + (1 if rng.chance(1, 8) else 0))]
-                trial = Sim(q, [], 53, [(x_.size, x_.d, x_.b) for x_ in sim.pool])
+                trial = Sim(q, [1, 3] if with_mul else [], 53, [(x_.size, x_.d, x_.b) for x_ in sim.pool])
                 out, _ = trial.step([str(x_) for x_ in c])
                 if out.startswith("ok") or rng.chance(1, 6):
                     break
@@ -1221,7 +1226,8 @@ def data_programs(rng, count, max_steps, with_mul=False):
             ops.append(",".join(toks))
         ps = "/".join(f"{s_}:{d_}:{b_}" for (s_, d_, b_) in pool)
         nk = int(any(o.split(",")[0] in NEEDS_KEY for o in ops))
-        lines.append(f"be={be} n={n} base2k={q} maxprec=53 keys=- pool={ps} dump=1 needkey={nk} big={int(be.startswith('ntt'))} seed={p + 1} ops=" + ";".join(ops))
+        na = int(any(o.split(",")[0] in NEEDS_ATK for o in ops))
+        lines.append(f"be={be} n={n} base2k={q} maxprec=53 keys={'1,3' if with_mul else '-'} pool={ps} dump=1 needkey={nk} needatk={na} big={int(be.startswith('ntt'))} seed={p + 1} ops=" + ";".join(ops))
     return lines
 
 
@@ -1239,10 +1245,10 @@ def run_data(ctx, binp, drv, lines):
         st = impl.get(k, ["?"])
         init = st[0][5:] if st and st[0].startswith("init#") else ""
         key = ""
-        if len(st) > 1 and st[1].startswith("key#"):
-            key = " key=" + st[1][4:]
+        while len(st) > 1 and st[1][:4] in ("key#", "atk#", "ctk#"):
+            key += " " + st[1][:3] + "=" + st[1][4:]
             st = [st[0]] + st[2:]
-            impl[k] = st
+        impl[k] = st
         # ZNX plaintext operands: the harness draws their limbs and prints them after `%`; hand them to the model
         kvp = l.split(" ops=")
         ops_ = kvp[1].split(";") if len(kvp) > 1 else []
@@ -1352,6 +1358,14 @@ def data_scenarios():
         for pool, ops in mprogs:
             k += 1
             out.append(f"be={be} n=16 base2k={q} maxprec=53 keys=- pool={pool} dump=1 needkey=1 big={int(be.startswith('ntt'))} seed={2000 + k} ops={ops}")
+        # rotations and conjugation: same size, narrower destination (aligned copy first), in place, missing key
+        rprogs = [
+            (f"{s_}:{d}:{cap-d}/{s_}:0:0/{s_-1}:0:0", "rot,1,0,1;rot,2,0,3;conj,1,0;conj,2,0;rot_assign,0,1;conj_assign,0;rot,1,0,5"),
+            (f"{s_}:{d}:{cap-d-q-3}/{s_-2}:0:0/{s_}:0:0", "rot,1,0,3;conj,1,0;rot,2,0,1;rot_assign,2,3;conj_assign,2;rot_assign,1,1"),
+        ]
+        for pool, ops in rprogs:
+            k += 1
+            out.append(f"be={be} n=16 base2k={q} maxprec=53 keys=1,3 pool={pool} dump=1 needatk=1 big={int(be.startswith('ntt'))} seed={3000 + k} ops={ops}")
     return out
 
 
